@@ -437,7 +437,11 @@ class HTTPChannel(wasyncore.dispatcher):
         except ClientDisconnected:
             self.logger.info("Client disconnected while serving %s" % task.request.path)
             task.close_on_finish = True
-        except Exception:
+        except BaseException:
+            # BaseException: the worker pool swallows everything a task raises,
+            # so a SystemExit or similar raised by the application must be
+            # answered and the connection closed here, or it is left open,
+            # unanswered and with its request queued forever
             self.logger.exception("Exception while serving %s" % task.request.path)
 
             if not task.wrote_header:
